@@ -148,11 +148,22 @@ func parentMain(seed uint64, out, tier string) {
 	stressMs := 2500
 	stressCfg := []string{"shared/cold", "shared/warm", "limited/partial", "private/cold"}
 	if tier == "thorough" {
-		variants = 4
-		stressMs = 9000
-		stressCfg = []string{"shared/cold", "shared/warm", "shared/partial", "limited/cold", "limited/partial", "limited/warm", "private/cold", "private/warm"}
+		variants = 6
+		stressMs = 12000
+		stressCfg = []string{"shared/cold", "shared/warm", "shared/partial", "shared/cold", "limited/cold", "limited/partial", "limited/warm",
+			"private/cold", "private/warm", "private/partial", "shared/warm", "private/cold"}
 	}
 	var implSamples []string
+	// one oracle failure per signature (the list handed to the runner is capped)
+	seenSig := map[string]int{}
+	fail := func(sig, what, replay string) {
+		seenSig[sig]++
+		if seenSig[sig] == 1 {
+			o.Fail(sig, what, replay)
+		} else {
+			o.Stats["oracle-failure"]++
+		}
+	}
 	// ------------------------------------------------------------------ forced schedules
 	for _, f := range families {
 		for v := 0; v < variants; v++ {
@@ -186,7 +197,7 @@ func parentMain(seed uint64, out, tier string) {
 				if f.modelled {
 					o.Emit("forced:"+f.name, replay, "child:"+kind, true)
 				}
-				o.Fail("forced:"+f.name+":"+kind, fmt.Sprintf("forced schedule %s: %s", f.name, text), replay)
+				fail("forced:"+f.name+":"+kind, fmt.Sprintf("forced schedule %s: %s", f.name, text), replay)
 				continue
 			}
 			il := implLine(fr)
@@ -208,7 +219,7 @@ func parentMain(seed uint64, out, tier string) {
 					if len(what) > 1800 {
 						what = what[:1800]
 					}
-					o.Fail(fmt.Sprintf("forced:%s:%s=%s", f.name, t.Thread, t.Class), what, replay)
+					fail(fmt.Sprintf("forced:%s:%s=%s", f.name, t.Thread, t.Class), what, replay)
 				}
 			}
 			os.RemoveAll(dir)
@@ -230,7 +241,7 @@ func parentMain(seed uint64, out, tier string) {
 		if rl == "" || json.Unmarshal([]byte(rl), &sr) != nil {
 			kind, text := crashKind(co, dir)
 			ps.kinds["stress:"+mode+":"+kind]++
-			o.Fail("stress:"+mode+":"+kind, fmt.Sprintf("stress %s: %s ; %s", cfg, text, lastLines(co.stdout, 4)), replay)
+			fail("stress:"+mode+":"+kind, fmt.Sprintf("stress %s: %s ; %s", cfg, text, lastLines(co.stdout, 4)), replay)
 			continue
 		}
 		ps.searches += sr.Searches
@@ -246,7 +257,7 @@ func parentMain(seed uint64, out, tier string) {
 			if len(what) > 1500 {
 				what = what[:1500]
 			}
-			o.Fail("stress:"+mode+":"+f.Kind, fmt.Sprintf("stress %s: %s", cfg, what), f.Replay)
+			fail("stress:"+mode+":"+f.Kind, fmt.Sprintf("stress %s: %s", cfg, what), f.Replay)
 		}
 		for _, s := range sr.Samples {
 			if len(implSamples) < 28 {
